@@ -120,6 +120,9 @@ func (e *Engine) effective(fs *FuncSpec, key string) *effSpec {
 		for _, c := range s.Assumes {
 			es.assumes = append(es.assumes, effClause{c, s, params})
 		}
+		for _, c := range s.Defines {
+			es.defines = append(es.defines, effClause{c, s, params})
+		}
 		for _, c := range s.Ensures {
 			es.ensures = append(es.ensures, effClause{c, s, params})
 		}
@@ -339,6 +342,14 @@ var noPanicExternals = map[string]bool{
 	"strconv.FormatBool": true, "strconv.FormatInt": true, "strconv.FormatUint": true, "strconv.FormatFloat": true, "strconv.Quote": true, "strconv.QuoteRune": true,
 	"strconv.ParseBool": true, "strconv.ParseInt": true, "strconv.ParseUint": true, "strconv.ParseFloat": true, "strconv.ParseComplex": true, "strconv.Unquote": true,
 	"utf8.DecodeRuneInString": true, "cmplx.Abs": true, "cmplx.Phase": true,
+	"(reflect.Value).Len": true, "(reflect.Value).Index": true, "(reflect.Value).IsValid": true, "(reflect.Value).IsNil": true,
+	"(reflect.Value).Kind": true, "(reflect.Value).Type": true, "(reflect.Value).Interface": true, "(reflect.Value).MapRange": true,
+	"(reflect.Value).MapIndex": true, "(reflect.Value).MapKeys": true, "(reflect.Value).NumMethod": true, "(reflect.Value).Method": true,
+	"(reflect.Value).MethodByName": true, "(reflect.Value).Elem": true, "(reflect.Value).NumField": true, "(reflect.Value).Field": true,
+	"(reflect.Value).CanInterface": true, "(reflect.Value).Bool": true, "(reflect.Value).Int": true, "(reflect.Value).Uint": true,
+	"(reflect.Value).Float": true, "(reflect.Value).Complex": true, "(reflect.Value).String": true,
+	"Type.NumMethod": true, "Type.Method": true, "Type.NumIn": true, "Type.String": true, "Type.Implements": true, "Type.Elem": true, "Type.Kind": true,
+	"(*reflect.MapIter).Next": true, "(*reflect.MapIter).Key": true, "(*reflect.MapIter).Value": true,
 }
 
 func (e *Engine) noPanicExternal(key string) bool { return noPanicExternals[key] }
@@ -480,6 +491,51 @@ func (fc *fnCtx) applySpec(st *State, fr *frame, site string, spec *effSpec, rec
 			fc.emit(st, fc.oblName(fr, fmt.Sprintf("pre@%s.%s.inv", site, shortKey(spec.key))), "pre", "receiver satisfies its type invariant at the call", "", g, nil)
 		}
 	}
+	// recursion: the callee's variant must be lexicographically smaller than the caller's entry variant
+	if fc.eff.decr != nil && spec.decr != nil && fc.top != nil {
+		func() {
+			defer func() {
+				if r := recover(); r != nil {
+					if se, isS := r.(specError); isS {
+						fc.contractError(st, spec.decr.Clause, se.msg)
+						return
+					}
+					panic(r)
+				}
+			}()
+			csc := fc.calleeCtx(st, spec, spec.decr.params, recv, args, nil)
+			var callee, caller []string
+			for _, x := range spec.decr.E.(*CallE).Args {
+				v := csc.eval(x)
+				csc.want(v, SInt, x)
+				callee = append(callee, v.T)
+			}
+			tsc := fc.specCtxForClause(st, fc.top, *fc.eff.decr)
+			tsc.heap = fc.top.entry
+			tsc.now = fc.top.entryT
+			for _, x := range fc.eff.decr.E.(*CallE).Args {
+				v := tsc.eval(x)
+				tsc.want(v, SInt, x)
+				caller = append(caller, v.T)
+			}
+			n := len(callee)
+			if len(caller) < n {
+				n = len(caller)
+			}
+			// lexicographic order on tuples of non-negative integers
+			var alts []string
+			for i := 0; i < n; i++ {
+				var conj []string
+				for j := 0; j < i; j++ {
+					conj = append(conj, eq(callee[j], caller[j]))
+				}
+				conj = append(conj, fmt.Sprintf("(< %s %s)", callee[i], caller[i]), fmt.Sprintf("(>= %s 0)", caller[i]))
+				alts = append(alts, and(conj...))
+			}
+			fc.emit(st, fc.oblName(fr, fmt.Sprintf("decreases@%s.%s", site, shortKey(spec.key))), "decreases",
+				"recursion variant: "+spec.decr.Text+" (callee) < "+fc.eff.decr.Text+" (caller)", clauseLoc(fc.eff.decr.Clause), or(alts...), nil)
+		}()
+	}
 	if spec.flags["mayblock"] {
 		fc.blockingCall(st, fr, site, spec, recv, args)
 	}
@@ -511,10 +567,43 @@ func (fc *fnCtx) applySpec(st *State, fr *frame, site string, spec *effSpec, rec
 	}
 	// normal outcome
 	var res []Val
+	if spec.flags["pure"] && len(resT) == 1 {
+		// a pure function: the result is a function of receiver and arguments only
+		fn := "pf." + sanitize(spec.key)
+		var sorts, ts []string
+		all := args
+		if recv != nil {
+			all = append([]Val{*recv}, args...)
+		}
+		ok := true
+		for _, a := range all {
+			if a.S == STuple || a.S == SAddr {
+				ok = false
+			}
+			sorts = append(sorts, a.S.SMT())
+			ts = append(ts, a.T)
+		}
+		if ok {
+			rs := sortOfType(resT[0])
+			fc.declareFun(st, fn, "("+strings.Join(sorts, " ")+") "+rs.SMT())
+			v := Val{T: app(fn, ts...), S: rs, GT: resT[0]}
+			if len(ts) == 0 {
+				v.T = fn
+			}
+			n := fc.declare(st, "pure", rs.SMT())
+			st.pc = append(st.pc, eq(n, v.T))
+			v.T = n
+			fc.assumeTyped(st, v)
+			res = append(res, v)
+		}
+	}
 	for i, t := range resT {
+		if i < len(res) {
+			continue
+		}
 		res = append(res, fc.freshVal(st, fmt.Sprintf("r%d", i), t))
 	}
-	for _, en := range spec.ensures {
+	for _, en := range append(append([]effClause(nil), spec.ensures...), spec.defines...) {
 		sc := fc.calleeCtx(st, spec, en.params, recv, args, res)
 		sc.old, sc.oldNow = preHeap, preNow
 		if g, ok := evalIn(sc, en, SBool); ok {
